@@ -63,7 +63,20 @@ def spd_near_degenerate(rng, n):
     return symmetrize(A)
 
 
-SPD_FAMILIES = [("random", spd_random), ("graded", spd_graded), ("hilbert", spd_hilbert), ("integer", spd_integer),
+def spd_sparse_pattern(rng, n):
+    """diagonally dominant matrices with a random pattern of exact zeros off the diagonal (zeros next to the diagonal, non-zeros
+    further out: fill-in in the Cholesky factor, vanishing bands in powers of its strictly lower part)"""
+    A = [[0.0] * n for _ in range(n)]
+    for i in range(n):
+        for j in range(i):
+            if rng.random() < 0.45 and not (rng.random() < 0.5 and i - j == 1):
+                A[i][j] = A[j][i] = rng.choice([-1, 1]) * rng.uniform(0.2, 1.0)
+    for i in range(n):
+        A[i][i] = sum(abs(t) for t in A[i]) * rng.uniform(1.05, 1.6) + rng.uniform(0.05, 0.5)
+    return A
+
+
+SPD_FAMILIES = [("sparse_pattern", spd_sparse_pattern), ("random", spd_random), ("graded", spd_graded), ("hilbert", spd_hilbert), ("integer", spd_integer),
                 ("graph", spd_graph_like), ("near_degenerate", spd_near_degenerate)]
 
 
@@ -99,6 +112,7 @@ CATALOGUE = {
     "pentagon": [(0, 1), (1, 2), (2, 3), (3, 4), (4, 0)],
     "sunrise_tadpole": [(0, 1), (0, 1), (0, 1), (1, 1)],
     "box_doubled": [(0, 1), (0, 1), (1, 2), (2, 3), (3, 0)],
+    "banana8": [(0, 1)] * 8,
     "rose3": [(0, 0), (0, 0), (0, 0)],
 }
 
@@ -169,7 +183,7 @@ def graph_request(edges, weights, massive, ext, D):
 def face_basis(name, edges):
     """sparse (face) cycle bases for chain-like graphs: consecutive cycles share one edge, non-consecutive ones none"""
     n = len(edges)
-    if name in ("sunrise", "banana4", "banana5", "banana6"):
+    if name in ("sunrise", "banana4", "banana5", "banana6", "banana8"):
         L = n - 1
         S = [[0] * L for _ in range(n)]
         for i in range(L):
